@@ -30,7 +30,7 @@ package query
 
 //@ func (l *L1InfoTreeDataQuerier) GetProofForGER (l, ctx, ger, rootFromWhichToProve)
 //@   props C09
-//@   requires l != nil && l.l1InfoTreeSyncer != nil
+//@   requires l != nil && l.l1Client != nil && l.l1InfoTreeSyncer != nil
 //@   modifies nothing
 //@   ensures[error-means-nothing] result2 != nil ==> result0 == nil
 //@   ensures[leaf-of-the-ger] result2 == nil ==> result0 != nil && result0.GlobalExitRoot == ger && result0.L1InfoTreeIndex == gerLeafIndex(ger) && result0.Timestamp == gerLeafTimestamp(ger) && result0.PreviousBlockHash == gerLeafPrevBlockHash(ger)
@@ -76,7 +76,7 @@ package query
 
 //@ func (l *L1InfoTreeDataQuerier) GetLatestFinalizedL1InfoRoot (l, ctx)
 //@   props C09
-//@   requires l != nil && l.l1InfoTreeSyncer != nil
+//@   requires l != nil && l.l1Client != nil && l.l1InfoTreeSyncer != nil
 //@   modifies nothing
 //@   ensures[error-means-nothing] result2 != nil ==> result0 == nil && result1 == nil
 //@   ensures[root-of-the-leaf] result2 == nil ==> result0 != nil && result1 != nil && result0.Index == result1.L1InfoTreeIndex && result0.Hash == l1RootHashAt(result1.L1InfoTreeIndex)
@@ -129,7 +129,7 @@ package query
 // aggchain prover): all three belong to the same leaf index
 //@ func (l *L1InfoTreeDataQuerier) GetFinalizedL1InfoTreeData (l, ctx)
 //@   props C09
-//@   requires l != nil && l.l1InfoTreeSyncer != nil
+//@   requires l != nil && l.l1Client != nil && l.l1InfoTreeSyncer != nil
 //@   modifies nothing
 //@   ensures[error-means-nothing] result3 != nil ==> result1 == nil && result2 == nil
 //@   ensures[root-leaf-proof-belong-together] result3 == nil ==> result1 != nil && result2 != nil && result2.Index == result1.L1InfoTreeIndex && result2.Hash == l1RootHashAt(result1.L1InfoTreeIndex) && result0 == l1ProofFrom(result2.Index, result2.Hash)
